@@ -406,8 +406,8 @@ class C05Engine(GenEngineBase):
 
     def tier_cfg(self, tier):
         if tier == "quick":
-            return {"episodes": 96}
-        return {"episodes": None, "budget_s": 900.0, "min_episodes": 96}
+            return {"episodes": 320}
+        return {"episodes": None, "budget_s": 900.0, "min_episodes": 320}
 
     def make_case(self, seed, tier="quick"):
         kn = stream(seed, "interp")
